@@ -23,6 +23,19 @@ Definition opened_file (rt : route) (files : fs) (fp : str) : option (str * (Z *
             end
   end.
 
+(* what is answered once a file has been opened: dates first, then the range *)
+Definition answer (file : str) (size : Z) (mt : mtime) (ims : ims_hdr) (rng : range_hdr) : response :=
+  match ims with
+  | IInvalid => R400
+  | _ =>
+    if not_modified mt (ims_time ims) then R304 file
+    else match rng with
+         | RInvalid => R400
+         | _ => resp_of file (set_range size (range_arg rng))
+         end
+  end.
+
+(* the order of evaluation: sanitise -> open / fallback -> dates -> range *)
 Lemma serve_unfold rt files path ims rng :
   serve rt files false path ims rng =
   match sanitize (length (r_prefix rt)) (has_fb rt) (r_dir rt) path with
@@ -30,28 +43,33 @@ Lemma serve_unfold rt files path ims rng :
   | Some fp =>
     match opened_file rt files fp with
     | None => R404
-    | Some (file, (size, mt)) =>
-      if match ims with Some t => mtime_sec mt <=? t | None => false end then R304 file
-      else match rng with
-           | RInvalid => R400
-           | _ => resp_of file (set_range size (range_arg rng))
-           end
+    | Some (file, (size, mt)) => answer file size mt ims rng
     end
   end.
 Proof.
-  unfold serve, opened_file, has_fb. cbn [negb].
+  unfold serve, opened_file, has_fb, answer, not_modified. cbn [negb].
   destruct (sanitize _ _ _ _) as [fp|]; [|reflexivity].
   destruct (fs_get files fp) as [[sz mt]|].
-  - destruct (match ims with Some t => mtime_sec mt <=? t | None => false end); [reflexivity|].
-    destruct rng; try reflexivity; cbn [range_arg]; destruct (set_range _ _); reflexivity.
+  - destruct ims as [| |t]; try reflexivity; cbn [ims_time];
+      (match goal with |- context [if ?b then _ else _] => destruct b end; [reflexivity|]);
+      destruct rng; try reflexivity; cbn [range_arg]; destruct (set_range _ _); reflexivity.
   - destruct (r_fallback rt) as [fb|]; [|reflexivity].
     destruct (fs_get files fb) as [[sz mt]|]; [|reflexivity].
-    destruct (match ims with Some t => mtime_sec mt <=? t | None => false end); [reflexivity|].
-    destruct rng; try reflexivity; cbn [range_arg]; destruct (set_range _ _); reflexivity.
+    destruct ims as [| |t]; try reflexivity; cbn [ims_time];
+      (match goal with |- context [if ?b then _ else _] => destruct b end; [reflexivity|]);
+      destruct rng; try reflexivity; cbn [range_arg]; destruct (set_range _ _); reflexivity.
 Qed.
 
 Lemma file_of_resp_of f r : file_of (resp_of f r) = Some f.
 Proof. destruct r; reflexivity. Qed.
+
+Lemma file_of_answer file size mt ims rng f :
+  file_of (answer file size mt ims rng) = Some f -> f = file.
+Proof.
+  unfold answer. destruct ims as [| |t]; try discriminate;
+    (destruct (not_modified mt _); [intros [= <-]; reflexivity|]);
+    destruct rng; try discriminate; rewrite file_of_resp_of; intros [= <-]; reflexivity.
+Qed.
 
 (* the only files ever opened: inside the directory, or the configured fallback *)
 Theorem serve_opens_inside rt files opt path ims rng f :
@@ -63,14 +81,10 @@ Proof.
   pose proof (static_containment _ _ _ _ _ S) as IN.
   unfold opened_file. unfold may_open.
   destruct (fs_get files fp) as [[sz mt]|].
-  - intro H. assert (f = fp) as ->; [|rewrite IN; reflexivity].
-    destruct (match ims with Some t => mtime_sec mt <=? t | None => false end); [injection H as <-; reflexivity|].
-    destruct rng; try discriminate; rewrite file_of_resp_of in H; injection H as <-; reflexivity.
+  - intro H. apply file_of_answer in H. subst f. rewrite IN. reflexivity.
   - destruct (r_fallback rt) as [fb|]; [|discriminate].
     destruct (fs_get files fb) as [[sz mt]|]; [|discriminate].
-    intro H. assert (f = fb) as ->; [|rewrite str_eqb_refl; apply orb_true_r].
-    destruct (match ims with Some t => mtime_sec mt <=? t | None => false end); [injection H as <-; reflexivity|].
-    destruct rng; try discriminate; rewrite file_of_resp_of in H; injection H as <-; reflexivity.
+    intro H. apply file_of_answer in H. subst f. rewrite str_eqb_refl. apply orb_true_r.
 Qed.
 
 (* the candidate path itself is always inside the directory, whatever exists on disk *)
@@ -78,56 +92,96 @@ Theorem candidate_inside rt path fp :
   sanitize (length (r_prefix rt)) (has_fb rt) (r_dir rt) path = Some fp -> inside (r_dir rt) fp = true.
 Proof. apply static_containment. Qed.
 
-(* anything the sanitiser rejects is a 404 and opens nothing *)
+(* ANYTHING ELSE IS A 404, WHATEVER HEADERS THE REQUEST CARRIES: a path the sanitiser rejects, or
+   whose candidate (and fallback) cannot be opened, is answered 404 for every If-Modified-Since
+   (absent, valid, malformed) and every Range (absent, valid, other unit, malformed): the
+   headers are not evaluated before a file has been opened *)
+Theorem rejected_is_404_whatever_headers rt files path :
+  sanitize (length (r_prefix rt)) (has_fb rt) (r_dir rt) path = None ->
+  forall ims rng, serve rt files false path ims rng = R404.
+Proof. intros H ims rng. rewrite serve_unfold, H. reflexivity. Qed.
+
+Theorem missing_is_404_whatever_headers rt files path fp :
+  sanitize (length (r_prefix rt)) (has_fb rt) (r_dir rt) path = Some fp ->
+  opened_file rt files fp = None ->
+  forall ims rng, serve rt files false path ims rng = R404.
+Proof. intros S O ims rng. rewrite serve_unfold, S, O. reflexivity. Qed.
+
+(* conversely a 404 never depends on the headers: it is decided by the path and the files *)
+Theorem not_found_independent_of_headers rt files path ims rng ims' rng' :
+  serve rt files false path ims rng = R404 -> serve rt files false path ims' rng' = R404.
+Proof.
+  rewrite !serve_unfold. destruct (sanitize _ _ _ _) as [fp|]; [|reflexivity].
+  destruct (opened_file rt files fp) as [[f [sz mt]]|]; [|reflexivity].
+  unfold answer. destruct ims as [| |t]; try discriminate;
+    (destruct (not_modified mt _); [discriminate|]);
+    destruct rng; try discriminate; destruct (set_range _ _); discriminate.
+Qed.
+
 Theorem rejected_is_404 rt files path ims rng :
   sanitize (length (r_prefix rt)) (has_fb rt) (r_dir rt) path = None ->
   serve rt files false path ims rng = R404.
-Proof. intro H. rewrite serve_unfold, H. reflexivity. Qed.
+Proof. intro H. apply rejected_is_404_whatever_headers. exact H. Qed.
 
-(* a served file obeys the RFC 9110 expectation for its size and the parsed Range *)
+(* for a file that is opened, the headers are evaluated in this order: a malformed
+   If-Modified-Since is a 400; else not-modified is a 304; else a malformed Range is a 400;
+   else the RFC 9110 expectation for the size and the parsed Range *)
 Theorem serve_response_ok rt files path ims rng r f size mtime fp :
   rng_ok rng = true -> 0 <= size ->
   sanitize (length (r_prefix rt)) (has_fb rt) (r_dir rt) path = Some fp ->
   opened_file rt files fp = Some (f, (size, mtime)) ->
   serve rt files false path ims rng = r ->
-  (exists t, ims = Some t /\ mtime_sec mtime <= t /\ r = R304 f) \/
-  (rng = RInvalid /\ r = R400) \/
-  (file_of r = Some f /\ response_ok size rng r = true).
+  (ims = IInvalid /\ r = R400) \/
+  (exists t, ims = IDate t /\ mtime_sec mtime <= t /\ r = R304 f) \/
+  (ims <> IInvalid /\ rng = RInvalid /\ r = R400) \/
+  (ims <> IInvalid /\ file_of r = Some f /\ response_ok size rng r = true).
 Proof.
-  intros OK Hs S O H. rewrite serve_unfold, S, O in H.
-  destruct ims as [t|].
+  intros OK Hs S O H. rewrite serve_unfold, S, O in H. unfold answer, not_modified in H.
+  destruct ims as [| |t]; cbn [ims_time] in H.
+  - right. right. destruct rng; subst r;
+      try (right; split; [discriminate | split; [apply file_of_resp_of | apply response_ok_sound; assumption]]).
+    left. repeat split; discriminate || reflexivity.
+  - left. split; [reflexivity | symmetry; exact H].
   - destruct (Z.leb_spec (mtime_sec mtime) t).
-    + left. exists t. repeat split; [assumption | symmetry; exact H].
-    + right. destruct rng; subst r; try (right; split; [apply file_of_resp_of | apply response_ok_sound; assumption]).
-      left. split; reflexivity.
-  - right. destruct rng; subst r; try (right; split; [apply file_of_resp_of | apply response_ok_sound; assumption]).
-    left. split; reflexivity.
+    + right. left. exists t. repeat split; [assumption | symmetry; exact H].
+    + right. right. destruct rng; subst r;
+        try (right; split; [discriminate | split; [apply file_of_resp_of | apply response_ok_sound; assumption]]).
+      left. repeat split; discriminate || reflexivity.
 Qed.
 
-(* 304 only when the file is not newer than If-Modified-Since; it carries no body *)
+(* 304 exactly when If-Modified-Since is a date and the file is not newer (whole seconds) *)
 Theorem not_modified_iff rt files path ims rng fp f size mtime :
   sanitize (length (r_prefix rt)) (has_fb rt) (r_dir rt) path = Some fp ->
   opened_file rt files fp = Some (f, (size, mtime)) ->
-  (serve rt files false path ims rng = R304 f <-> exists t, ims = Some t /\ mtime_sec mtime <= t).
+  (serve rt files false path ims rng = R304 f <-> exists t, ims = IDate t /\ mtime_sec mtime <= t).
 Proof.
-  intros S O. rewrite serve_unfold, S, O. split.
-  - destruct ims as [t|].
+  intros S O. rewrite serve_unfold, S, O. unfold answer, not_modified. split.
+  - destruct ims as [| |t]; cbn [ims_time].
+    + destruct rng; try discriminate; destruct (set_range _ _); discriminate.
+    + discriminate.
     + destruct (Z.leb_spec (mtime_sec mtime) t); [intros _; exists t; split; [reflexivity | assumption]|].
       destruct rng; try discriminate; destruct (set_range _ _); discriminate.
-    + destruct rng; try discriminate; destruct (set_range _ _); discriminate.
-  - intros (t & -> & L). destruct (Z.leb_spec (mtime_sec mtime) t); [reflexivity | lia].
+  - intros (t & -> & L). cbn [ims_time]. destruct (Z.leb_spec (mtime_sec mtime) t); [reflexivity | lia].
 Qed.
 
 (* ... stated with the oracle the harness evaluates *)
 Theorem not_modified_oracle rt files path ims rng fp f size mtime :
   sanitize (length (r_prefix rt)) (has_fb rt) (r_dir rt) path = Some fp ->
   opened_file rt files fp = Some (f, (size, mtime)) ->
-  (serve rt files false path ims rng = R304 f <-> not_modified mtime ims = true).
+  (serve rt files false path ims rng = R304 f <-> not_modified mtime (ims_time ims) = true).
 Proof.
   intros S O. rewrite (not_modified_iff _ _ _ _ rng _ _ _ _ S O). unfold not_modified. split.
   - intros (t & -> & L). apply Z.leb_le. exact L.
-  - destruct ims as [t|]; [|discriminate]. intro L. exists t. split; [reflexivity | apply Z.leb_le; exact L].
+  - destruct ims as [| |t]; try discriminate. cbn [ims_time]. intro L. exists t.
+    split; [reflexivity | apply Z.leb_le; exact L].
 Qed.
+
+(* a malformed If-Modified-Since on a file that is opened: 400 (evaluated before the range) *)
+Theorem malformed_date_is_400 rt files path rng fp f size mtime :
+  sanitize (length (r_prefix rt)) (has_fb rt) (r_dir rt) path = Some fp ->
+  opened_file rt files fp = Some (f, (size, mtime)) ->
+  serve rt files false path IInvalid rng = R400.
+Proof. intros S O. rewrite serve_unfold, S, O. reflexivity. Qed.
 
 (* a range unit other than "bytes" is ignored *)
 Theorem other_unit_ignored rt files opt path ims :
@@ -275,9 +329,7 @@ Proof.
   intro H. exists fp. split; [reflexivity|].
   assert (OF : exists v, opened_file rt files fp = Some (f, v)).
   { destruct (opened_file rt files fp) as [[f0 [sz mt]]|]; [|discriminate].
-    exists (sz, mt). f_equal. f_equal.
-    destruct (match ims with Some t => (mtime_sec mt <=? t)%Z | None => false end); [injection H as <-; reflexivity|].
-    destruct rng; try discriminate; rewrite file_of_resp_of in H; injection H as <-; reflexivity. }
+    exists (sz, mt). f_equal. f_equal. symmetry. eapply file_of_answer. exact H. }
   destruct OF as [v OF]. unfold opened_file in OF.
   destruct (fs_get files fp) as [w|] eqn:G.
   - injection OF as <- <-. left. split; [reflexivity | discriminate].
